@@ -96,8 +96,7 @@ has a different key and is still reported):
 |---|---|---|---|
 ''' + "\n".join(frows) + '''
 
-Defects predicted at design time that turned out differently: the WSP data-channel join (design item 13) is not
-driven by any check (see section 12); "STAP-A(SPS+IDR) not a key frame" is covered by the C02 packetisation
+Defects predicted at design time that turned out differently: "STAP-A(SPS+IDR) not a key frame" is covered by the C02 packetisation
 variants and holds on the current tree.
 '''
 
@@ -140,6 +139,10 @@ the check re-run on the unchanged tree with several seeds.
 * **C15.** The SDP leg first used an rtpmap whose clock rate contradicted the AudioSpecificConfig; which of the two
   wins is not something the statement settles, so the leg now uses a conformant rtpmap (the remaining mismatch, mono
   with the channel count omitted, is unambiguous under RFC 4566 and was a genuine defect).
+* **C11 / WSP.** The first WSP client opened the sockets on a path the user may pull and asked for another path inside
+  the wrapped RTSP; the server answered and media arrived - but it was the media of the socket's own path (WSP serves
+  the stream named by the WebSocket URL). Streams are now recognisable by their SSRC and only media of the requested
+  stream counts; never committed as a violation.
 * **C07.** Random RTCP bytes that form a well-formed sender report are not "malformed"; they are excluded from the
   garbage class (their effect on the time line is the C06 known finding). For one run HLS output after an injection was
   only counted when its key frames carried the stream's own SPS / PPS; C07 says nothing about that (it is C09 / C10
@@ -169,7 +172,8 @@ enumerated; this section only records where the build differs from the design.
 * **C08, C09** acceptor + case-generator pairs instead of one output automaton; H.265 added to C08.
 * **C10** as designed; the pool-dependence caveat of section 7 turned out unnecessary in practice (reuse happens
   in every run), the server-level leg compares HTTP bytes with a synchronous reference run.
-* **C11** reference monitor + nine entry points; WSP control / data pairing is not driven.
+* **C11** reference monitor + ten entry points (WSP added late: control + data socket, and a leg that joins a data
+  socket to another user's channel using ids derived from the attacker's own - a genuine defect, fixed in b6695a6).
 * **C12, C13** as designed; `WriteLock.tla` does not model the buffered flush separately (the flush gate is in the
   harness).
 * **C14** `Wire` became `WireCases` / `WireFaults` / `RtspWire`; the dispatcher is reached through a verif-only
@@ -220,7 +224,7 @@ counterexample that did not reproduce) - never a verdict.
 
 ## 12. Limits and what is not covered
 
-* Transport legs of C01 over UDP / multicast / WSP; the WSP control / data channel pairing of C11; stream replacement
+* Transport legs of C01 over UDP / multicast / WSP; stream replacement
   while a disk-mode HLS stream of the same path still owns files with the same names (C10).
 * Freshness of the HLS window is a verdict in disk mode and at quiescence over HTTP only; in memory mode it is
   covered by model drift.
